@@ -47,7 +47,13 @@ def mk_params(it):
 def mk_ctparse_obj(it, w, tag, with_resolution=True):
     cls = w.classes["CTParse"]
     o = Obj(cls, fresh=False, label=tag)
-    o.attrs["resolution"] = Tok(tag + ".resolution")
+    # the resolution is a value with a span (a candidate's own attributes may legitimately be looked at)
+    res = Obj(w.classes["Time"], fresh=False, label=tag + ".resolution")
+    res.attrs.update({"year": None, "month": None, "day": None, "hour": z3.Int(tag + ".hour"), "minute": None, "DOW": None, "POD": None,
+                      "mstart": z3.Int(tag + ".mstart"), "mend": z3.Int(tag + ".mend"), "_attrs": ["year", "month", "day", "hour", "minute", "DOW", "POD"]})
+    it.assume(z3.And(res.attrs["mstart"] >= 0, res.attrs["mend"] > res.attrs["mstart"], res.attrs["mend"] <= 400,
+                     res.attrs["hour"] >= 0, res.attrs["hour"] <= 23))
+    o.attrs["resolution"] = res if with_resolution else Tok(tag + ".resolution")
     o.attrs["production"] = Tok(tag + ".production")
     o.attrs["score"] = z3.Real(tag + ".score")
     o.attrs["subject"] = UTerm("input", [tag + ".subject"], "str")
@@ -164,7 +170,15 @@ def units(world):
             P = mk_params(it)
             n = z3.Int("N")
             it.assume(n >= 1)
-            return [P, ObjSeq("stream", n, {"score": lambda b: SCORE(b)}), {}]
+            LEN = z3.Function("cand.resolution.len", z3.IntSort(), z3.IntSort())
+
+            def resolution(b):
+                # the candidate's resolution: a value whose span length is some function of the candidate
+                r = Obj(w.classes["Time"], fresh=False, label="cand.resolution")
+                r.attrs.update({"year": None, "month": None, "day": None, "hour": None, "minute": None, "DOW": None, "POD": None,
+                                "mstart": z3.IntVal(0), "mend": LEN(b)})
+                return r
+            return [P, ObjSeq("stream", n, {"score": lambda b: SCORE(b), "resolution": resolution}), {}]
 
         def call(it, w, a):
             P, stream, seen = a
